@@ -65,11 +65,11 @@ MIN_COUNTERS = {
 
 def plan(tier, seed):
     if tier == 'quick':
-        n_grid, n_hist, parts, secs = 3000, 3000, 5, 40
-        n_rt, rt_parts = 96, 2
+        n_grid, n_hist, parts, secs = 2000, 2000, 5, 35
+        n_rt, rt_parts = 64, 2
     else:
-        n_grid, n_hist, parts, secs = 180_000, 100_000, 6, 540
-        n_rt, rt_parts = 4000, 3
+        n_grid, n_hist, parts, secs = 120_000, 80_000, 7, 560
+        n_rt, rt_parts = 4000, 2
     shards = []
     for kind, total in (('grid', n_grid), ('hist', n_hist)):
         for p, (f, n) in enumerate(split(total, parts)):
